@@ -69,8 +69,10 @@ func count(s *Store, ctx context.Context, builders ...func(query *bun.SelectQuer
 	for _, builder := range builders {
 		query = query.Apply(builder)
 	}
+	// The sub query is passed as an argument: formatting it to text and handing the text to TableExpr would make bun
+	// parse the already inlined values a second time ("?(" or a backslash before "?" inside a value would alter the statement).
 	return s.bucket.db.NewSelect().
-		TableExpr("(" + query.String() + ") data").
+		TableExpr("(?) data", query).
 		Count(ctx)
 }
 
